@@ -24,6 +24,7 @@ fn models(tier: Tier) -> Vec<Model> {
             v.extend(gen::m4(0).into_iter().step_by(3));
             v.extend(gen::m5(0).into_iter().step_by(1));
             v.extend(gen::m7(0).into_iter().step_by(1));
+            v.extend(gen::m10(0));
         }
         Tier::Thorough => {
             v.extend(gen::m1(1));
@@ -32,6 +33,7 @@ fn models(tier: Tier) -> Vec<Model> {
             v.extend(gen::m4(1));
             v.extend(gen::m5(1).into_iter().step_by(1));
             v.extend(gen::m7(1).into_iter().step_by(1));
+            v.extend(gen::m10(1));
         }
     }
     v
